@@ -67,6 +67,7 @@ struct G
     size_t   nev;
     int32_t  chosen[kMaxDec];
     uint64_t thash;
+    long     os_tid[kMaxClients];
 } g;
 
 inline long futex(int* addr, int op, int val) { return syscall(SYS_futex, addr, op, val, nullptr, nullptr, 0); }
@@ -346,8 +347,9 @@ void end_run()
 // ------------------------------------------------------------------ client ----
 bool client_begin(int id)
 {
-    tls_client = id;
-    tls_sim    = true;
+    tls_client   = id;
+    tls_sim      = true;
+    g.os_tid[id] = (long)syscall(SYS_gettid);
     wait_self(id);
     return !g.exit_flag;
 }
@@ -404,6 +406,13 @@ uint32_t preemptions() { return g.preempt; }
 uint32_t stalls_fired() { return g.stalls; }
 uint32_t blocked_fired() { return g.blocked; }
 uint64_t trace_hash() { return g.thash; }
+int      client_of_os_tid(long os)
+{
+    for (int i = 0; i < g.n; ++i)
+        if (g.os_tid[i] == os)
+            return i;
+    return -1;
+}
 
 } // namespace sched
 } // namespace sim
